@@ -9,7 +9,8 @@
 (*           multis <<id, d[multi spec], d[multi id]>>; names <<id, d[name]>>;*)
 (*           todict <<id, value>> of to_dict(dna_spec, value, subchoice, inactive)*)
 (*   chains  start tree; steps <<op, input tree, annotated result, views of the *)
-(*           result, views of the DNA rebuilt from the result's numbers, input untouched>> *)
+(*           result, views of the DNA rebuilt from the result's numbers, input untouched, *)
+(*           lookups on the result (the input's lookup tables were warmed before the op)>> *)
 (***************************************************************************)
 EXTENDS GenoViews, Json, IOUtils
 
@@ -63,6 +64,17 @@ MultiRefById(sp, d, id) ==
   IF \E m \in 1..Len(ms) : ms[m].id = id
   THEN MultiRef(sp, d, id, ms[CHOOSE m \in 1..Len(ms) : ms[m].id = id].k) ELSE <<Bad>>
 
+\* do the recorded lookups (by decision point / id / id string, multi-choice parents, names) of a DNA whose
+\* abstract form is d answer with the decisions of d ?
+LookupsOK(sp, d, lk) ==
+  LET ref == LookupRef(sp, d) IN
+  /\ Len(lk.lookups) = Len(ref)
+  /\ \A k \in 1..Len(lk.lookups) : \A c \in 1..3 : lk.lookups[k][c] = ref[k]
+  /\ \A j \in 1..Len(lk.multis) : LET r == MultiRefById(sp, d, lk.multis[j][1]) IN lk.multis[j][2] = r /\ lk.multis[j][3] = r
+  /\ \A j \in 1..Len(lk.names) :
+        \/ lk.names[j][2] = NameRef(sp, d, lk.names[j][1])
+        \/ NameRef(sp, d, lk.names[j][1]) = <<Inactive>> /\ lk.names[j][2] = <<Bad>>    \* C12-F2 (own law on fresh DNAs)
+
 DnaLaws(i, sp, f, x) ==
   LET t == x.tree IN
   IF ~IsV(f, t) THEN Fail(i, "harness_tree_not_valid", "bind", t) ELSE
@@ -98,6 +110,7 @@ StepVerdict(sp, f, st) ==
   IF out[1] = "!" THEN (IF op = "parse" /\ HasChain3(in) THEN "op_raised_nested_numbers_of_chain3" ELSE "op_raised")
   ELSE IF ~IsV(f, po) THEN "result_not_valid"
   ELSE IF out # ATree(sp, AbsOf(f, po)) THEN "aligned"
+  ELSE IF ~LookupsOK(sp, AbsOf(f, po), st[7]) THEN "lookups_after_operation"
   ELSE IF st[4] # st[5] THEN "views_differ_from_rebuilt"
   ELSE IF ~st[6] THEN "input_modified"
   ELSE IF op \in SameOps /\ po # in THEN "op_result"
